@@ -19,7 +19,7 @@ from hypothesis import strategies as st
 
 from vf.common import call_sut, run_given, shard_seed
 from vf.harness import cli, tree
-from vf.ref.classify import CATEGORY_COLOR, CHECK_SYMBOL, category, is_finding, is_unmaintainable
+from vf.ref.classify import category, is_finding, is_unmaintainable
 
 ID = "C02"
 LEVEL = "exploration"
@@ -32,7 +32,8 @@ RULE = (
 ASSUMPTIONS = [
     "part B uses flat functions only, whose measured length does not depend on the nesting logic (that is C01's subject)",
     "the check entry function of codelimit.__main__ is called in-process with stdout captured (the sandbox's typer/click pair mis-parses --quiet on the real command line)",
-    "colour is observed at the API level (rich Style), symbols also in the rendered output",
+    "colour is observed at the API level (rich Style), symbols also in the rendered output; WHICH colour / symbol a category gets is read off the tool at one length well inside each category (7, 23, 45, 100) - "
+    "every other length must be shown like its category's representative, and easy / hard-to-maintain / unmaintainable must be shown differently",
 ]
 FLOOR = {"quick": 300, "thorough": 4000}
 EXHAUSTIVE = "part A: every L in 1..200 at every site (part B is sampled)"
@@ -48,6 +49,34 @@ def _m(v, name="f", extra_span=0):
 
 def _color(style):
     return style.color.name if style is not None and style.color is not None else None
+
+
+REPRESENTATIVE = {0: 7, 1: 23, 2: 45, 3: 100}  # one length well inside each category
+_SHOWN = {}
+
+
+def shown_as():
+    """How the tool itself shows each category at a length well inside it: {category: colour}, {category: symbol of the
+    check / findings line}, {category: Markdown severity symbol}. Which colours and symbols those are is the tool's
+    choice; the property is that every length of a category is shown like its representative, and that the two finding
+    categories are told apart from each other and from the easy one."""
+    if _SHOWN:
+        return _SHOWN
+    from codelimit.common import utils as U
+
+    color, symbol = {}, {}
+    for cat, L in REPRESENTATIVE.items():
+        color[cat] = _color(U.get_style_for_measurement(L))
+        plain = U.format_measurement("a.py", _m(L)).plain
+        after = plain.split(f" {L} ", 1)[1] if f" {L} " in plain else ""
+        symbol[cat] = after.split(" ", 1)[0]
+    problems = []
+    if len({color[0], color[2], color[3]}) < 3:
+        problems.append(f"colours do not tell easy / hard-to-maintain / unmaintainable apart: {color}")
+    if len({symbol[0], symbol[2], symbol[3]}) < 3 or not all(symbol.values()):
+        problems.append(f"symbols do not tell easy / hard-to-maintain / unmaintainable apart: {symbol}")
+    _SHOWN.update(color=color, symbol=symbol, problems=problems)
+    return _SHOWN
 
 
 def _render(fn):
@@ -73,6 +102,9 @@ def check_sites(L, extra_span=0):
     from codelimit.common.report.Report import Report
 
     cat = category(L)
+    shown = shown_as()
+    if shown["problems"]:
+        return ("categories-not-distinguishable", "; ".join(shown["problems"]))
     m = _m(L, extra_span=extra_span)
     want_profile = [0, 0, 0, 0]
     want_profile[cat] = L
@@ -99,21 +131,25 @@ def check_sites(L, extra_span=0):
         c.add(Path("a.py"), [m])
         return (c.hard_to_maintain, c.unmaintainable)
 
-    def unit_color():
-        t = U.format_unit("f", L)
-        cols = [_color(s.style) for s in t.spans if s.style is not None and not isinstance(s.style, str)]
+    def unit_color(Lx=L):
+        t = U.format_unit("f", Lx)
+        cols = [_color(sp.style) for sp in t.spans if sp.style is not None and not isinstance(sp.style, str)]
         return cols[0] if cols else None
 
-    def fm_colors():
-        t = U.format_measurement("a.py", m)
+    def fm_shown(Lx=L):
+        """(colours of the length and of the symbol, the symbol) of one check / findings line"""
+        mx = _m(Lx, extra_span=extra_span)
+        t = U.format_measurement("a.py", mx)
         plain = t.plain
+        sym = plain.split(f" {Lx} ", 1)[1].split(" ", 1)[0] if f" {Lx} " in plain else None
         cols = set()
-        for s in t.spans:
-            seg = plain[s.start : s.end]
-            if seg in (str(L), CHECK_SYMBOL[0], CHECK_SYMBOL[2], CHECK_SYMBOL[3]):
-                cols.add(_color(s.style) if not isinstance(s.style, str) else s.style)
-        return (sorted(cols), f" {L} {CHECK_SYMBOL[cat]} f" in plain)
+        for sp in t.spans:
+            seg = plain[sp.start : sp.end]
+            if seg in (str(Lx), sym):
+                cols.add(_color(sp.style) if not isinstance(sp.style, str) else sp.style)
+        return (sorted(map(str, cols)), sym)
 
+    rep = REPRESENTATIVE[cat]
     hm = (1 if cat == 2 else 0, 1 if cat == 3 else 0)
     for bad in (
         site("make_profile", lambda: U.make_profile([m]), want_profile),
@@ -121,10 +157,11 @@ def check_sites(L, extra_span=0):
         site("SourceFileEntry.profile", lambda: list(entry.profile()), want_profile),
         site("LanguageTotals.add", lt, hm),
         site("CheckResult.add", cr, hm),
-        site("get_style_for_measurement", lambda: _color(U.get_style_for_measurement(L)), CATEGORY_COLOR[cat]),
-        site("get_emoji_for_measurement", lambda: U.get_emoji_for_measurement(L), CHECK_SYMBOL[cat]),
-        site("format_unit", unit_color, CATEGORY_COLOR[cat]),
-        site("format_measurement", fm_colors, ([CATEGORY_COLOR[cat]], True)),
+        # shown like the category's representative, site by site (which colour / symbol a site uses is the tool's choice)
+        site("get_style_for_measurement", lambda: _color(U.get_style_for_measurement(L)), _color(U.get_style_for_measurement(rep))),
+        site("get_emoji_for_measurement", lambda: U.get_emoji_for_measurement(L), U.get_emoji_for_measurement(rep)),
+        site("format_unit", unit_color, unit_color(rep)),
+        site("format_measurement", fm_shown, fm_shown(rep)),
     ):
         if bad:
             return bad
@@ -150,10 +187,44 @@ def check_sites(L, extra_span=0):
         if (len(rows) == 1) != is_finding(L):
             return ("print_findings:markdown", f"L={L}: rows={rows}")
         if rows:
-            want_sym = "❌" if is_unmaintainable(L) else "⚠"
-            if want_sym not in rows[0] or ("❌" in rows[0]) != is_unmaintainable(L):
-                return ("print_findings:markdown-symbol", f"L={L}: row {rows[0]!r} should carry {want_sym!r}")
+            md = _markdown_symbols(repo is not None)
+            got_sym = _md_symbol(rows[0], L)
+            if md[2] == md[3] or got_sym != md[cat]:
+                return ("print_findings:markdown-symbol", f"L={L}: row {rows[0]!r} carries {got_sym!r}; a {45}-line function is shown with {md[2]!r}, a {100}-line one with {md[3]!r}")
     return None
+
+
+_MD = {}
+
+
+def _md_symbol(row, L):
+    """The severity symbol of a Markdown findings row: the first non-alphanumeric token of the function cell."""
+    cells = [c.strip() for c in row.strip().strip("|").split("|")]
+    cell = cells[0] if len(cells) == 3 else cells[-1]
+    tok = cell.split(" ", 1)[0]
+    return tok
+
+
+def _markdown_symbols(with_repo):
+    if with_repo not in _MD:
+        from codelimit.common.Codebase import Codebase
+        from codelimit.common.GithubRepository import GithubRepository
+        from codelimit.common.SourceFileEntry import SourceFileEntry
+        from codelimit.common.report import format_markdown
+        from codelimit.common.report.Report import Report
+
+        out = {}
+        for cat in (2, 3):
+            L = REPRESENTATIVE[cat]
+            cb = Codebase("/")
+            cb.add_file(SourceFileEntry("a.py", "x", "Python", L, [_m(L)]))
+            cb.aggregate()
+            report = Report(cb, GithubRepository("o", "n", branch="b") if with_repo else None)
+            text = _render(lambda c: format_markdown.print_findings(report, c, False))
+            rows = [ln for ln in text.splitlines() if ln.startswith("|") and "---" not in ln and "**" not in ln]
+            out[cat] = _md_symbol(rows[0], L) if rows else None
+        _MD[with_repo] = out
+    return _MD[with_repo]
 
 
 def enum_sites(col, values):
@@ -243,7 +314,7 @@ def run_check_case(case):
         by_file.setdefault(path, []).append((ln, sym, name))
     for f in files:
         names = [f"fn{i}" for i in range(len(f["lengths"]))]
-        want = sorted([(v, CHECK_SYMBOL[category(v)], n) for v, n in zip(f["lengths"], names) if is_finding(v)], key=lambda t: -t[0])
+        want = sorted([(v, shown_as()["symbol"][category(v)], n) for v, n in zip(f["lengths"], names) if is_finding(v)], key=lambda t: -t[0])
         got = by_file.pop(f["path"], [])
         if sorted(got) != sorted(want):
             return ("check:listing", f"{f['path']} (lengths {f['lengths']}): listed {got}, expected {want}")
